@@ -5,6 +5,8 @@ import (
 	"reflect"
 	"strings"
 
+	"github.com/AsaiYusuke/jsonpath"
+
 	"pgregory.net/rapid"
 
 	"verif/harness/gen"
@@ -19,6 +21,9 @@ func drawC18(rt *rapid.T) *Case {
 	p := g.Path()
 	canonical := gen.Render(p, gen.Canon)
 	c := &Case{Path: canonical.Text, AST: p, Texts: canonical.Steps, Doc: g.Doc(p), UseNumber: rapid.Bool().Draw(rt, "usenumber"), Funcs: true}
+	if gen.Uniform(rt, "poison", 6) == 0 {
+		c.Strs = []string{poisonPaths[gen.Uniform(rt, "poisonpath", len(poisonPaths))]}
+	}
 	n := 2 + gen.Uniform(rt, "nvariants", 5)
 	for i := 0; i < n; i++ {
 		c.Ints = append(c.Ints, int(rapid.Uint32().Draw(rt, "styleseed")))
@@ -87,6 +92,11 @@ func checkC18(c *Case, st *Stats) string {
 	var baseInfo ErrInfo
 	for i, v := range variants {
 		Journal(c.Check, v.text, docText, flagString(c))
+		if len(c.Strs) > 0 {
+			// every spelling is parsed right after a rejected Parse
+			noteParse(c.Strs[0], true, false)
+			_, _ = jsonpath.Parse(c.Strs[0], BuildConfig(nil, true, false))
+		}
 		lib := evalLibrary(&Case{Path: v.text, Funcs: true}, c.Document(), false)
 		st.Eval(1)
 		if lib.parseErr != nil {
